@@ -323,6 +323,9 @@ def plan_hybrid(pid, tr, sd):
                 [("move_nested", 1), ("move", "same"), ("assign_nested", 1, "other")],
                 [("assign_ref", 0, "same"), ("assign_ref_plain", 0, "raw"), ("set", 0), ("assign_ref_plain", 0, "none")],
                 [("assign_ref_plain", 1, "raw"), ("assign_ref", 1, "same"), ("assign_ref_plain", 1, "none"), ("assign_ref", 0, "same")],
+                # array attributes read, then the buffer grows under the object (a copy into its own buffer), then the
+                # elements are written through the underlying struct and through the attribute
+                [("seta", 0), ("copy", "same"), ("setxa", 0), ("copy", "same"), ("seta", 1), ("setxa", 1)],
             ]
             if tr == "thorough":
                 hs += [
